@@ -33,6 +33,16 @@ COQ_FILES = ["theories/Wire/Robust.v", "theories/Wire/RobustFacts.v", "theories/
 # the input, serde_json/ciborium Value trees: up to ~40 bytes per input byte).
 ALLOC_A = 64
 ALLOC_B = 1 << 20
+# Decoders that are entirely the repository's own code (no serde / serde_json / ciborium parse inside; cose_to_der is
+# not among them: its input goes through ciborium first) get the
+# tight bounds their models justify; measured on the unchanged tree with >= 2x headroom (evidence "measured"):
+#   op -> (A, B, TA, TB): largest single request <= A*n + B, sum of all requests during the call <= TA*n + TB.
+# The sum matters for the packet-sequence decoder: memory pinned per pending channel adds up over a sequence.
+OP_BOUNDS = {
+    "hid_packets": (8, 4096, 16, 4096),       # measured: max <= 1.7 n + 1 KiB, total <= 4.2 n + 1 KiB
+    "u2f_request": (1, 256, 4, 1024),         # model: every allocation is a copy of a slice of the input
+    "psl": (0, 4096, 0, 4096),                # lookups borrow from the input
+}
 TIME_T_US = 2_000_000
 KILL_MS = 4000           # the worker's watchdog: a decoder call running longer kills the worker (observed as a crash)
 MAX_COQ_LITERAL = 1500   # inputs longer than this are judged on the observation only (literal parse cost)
@@ -930,8 +940,11 @@ def verdict(c, o):
         return "harness error: %s" % o.get("msg")
     if o["class"] == "panic":
         return "panic: %s" % (o.get("detail") or {}).get("msg", "")[:160]
-    if o["max"] > ALLOC_A * c["_n"] + ALLOC_B:
-        return "largest allocation request %d bytes for an input of %d bytes (bound %d * n + %d)" % (o["max"], c["_n"], ALLOC_A, ALLOC_B)
+    a, b, ta, tb = OP_BOUNDS.get(c["op"], (ALLOC_A, ALLOC_B, None, None))
+    if o["max"] > a * c["_n"] + b:
+        return "largest allocation request %d bytes for an input of %d bytes (bound %d * n + %d)" % (o["max"], c["_n"], a, b)
+    if ta is not None and o.get("total", 0) > ta * c["_n"] + tb:
+        return "allocation requests add up to %d bytes for an input of %d bytes (bound %d * n + %d)" % (o["total"], c["_n"], ta, tb)
     if o["us"] > TIME_T_US:
         return "slow"
     return None
@@ -1102,7 +1115,7 @@ def check(run):
                 "arrays/maps/tags/indefinite strings, JSON nesting 200/10000, 1 MB strings; U2F frames (F8 shapes); HID packet sequences "
                 "(F9 shapes, random, interleaved valid/damaged, 300 pending channels, 65535 declared); COSE keys with coordinates of every "
                 "length (F10), off-curve points, label/value/alg/kty variations. distinct = (op, shape, class, log2 size, log2 largest allocation)",
-        "bound": {"ALLOC_A": ALLOC_A, "ALLOC_B": ALLOC_B, "TIME_T_us": TIME_T_US, "watchdog_kill_ms": KILL_MS,
+        "bound": {"per_op (A, B, TA, TB)": OP_BOUNDS, "ALLOC_A": ALLOC_A, "ALLOC_B": ALLOC_B, "TIME_T_us": TIME_T_US, "watchdog_kill_ms": KILL_MS,
                   "allocator_refuses_above": 1 << 30},
         "measured": {"largest_allocation": worst_alloc, "largest_(alloc-B)/input": worst_ratio, "slowest_us": worst_us,
                      "largest_allocation_for_inputs_up_to_64_bytes": small},
